@@ -28,6 +28,10 @@ def rep(m):
             return ours+theirs
         if "skipValue()" in ours and "func (d *Decoder) skipValue" not in ours and "d.ReadData()" in theirs:
             return re.sub(r'_, err = d\.ReadData\(\)','err = d.skipValue()',re.sub(r'_, err := d\.ReadData\(\)','err := d.skipValue()',theirs))
+        if "d.setListElem(" in ours and "SetValue(" in theirs:
+            return theirs.replace("SetValue(elem, v)","d.setListElem(elem, v)").replace("SetValue(aryValue.Index(j), v)","d.setListElem(aryValue.Index(j), v)")
+        if "func (d *Decoder) setListElem" in ours and "func " in theirs:
+            return ours+"}\n\n"+theirs
         if "func (d *Decoder) skipValue" in ours:
             return ours+"}\n\n"+theirs
         return ours+theirs
